@@ -66,7 +66,7 @@ def main():
                    enable='no source hooks are needed: the harness installs its interposers on the imported modules '
                           '(bert_e.lib.git.cmd, mock host methods) inside the checking process',
                    baseline_off_cmd='cd /repo && /venv/bin/python -m pytest -ra -q -p no:cacheprovider --timeout=900 '
-                                    '--continue-on-collection-errors; git -C /repo checkout -- coverage.xml',
+                                    '--continue-on-collection-errors',
                    source_commits=[], add_only=True),
         engines=[dict(name='sys', path='harness/syscheck.py + spec/BertE.tla + spec/TraceMon.tla + spec/Monitors.tla',
                       serves_properties=[p for p in props if p in CHECKS and 'S' in CHECKS[p][1] and enabled(p)],
